@@ -7,6 +7,8 @@ for f in sorted(glob.glob('/verif/seeded/*/meta.json')):
     notes = (m.get('needs_to_manifest') or '').strip().split('\n')
     first = next((l.strip('# ').strip() for l in notes if l.strip()), '')
     det = ', '.join(m.get('detected_by') or []) or '—'
+    if m.get('obsolete'):
+        det = 'n/a (no longer breaks the property: %s)' % m['obsolete']
     ran = ', '.join('%s:%s' % (r['check'], 'VIOLATION' if r['exit'] == 1 and r['violations'] else 'silent') for r in m.get('ran', []))
     sig = ''
     for r in m.get('ran', []):
@@ -24,7 +26,8 @@ out = ['# Seeded defects and which checks catch them', '',
 for r in rows:
     out.append('| %s | %s | %s | %s | %s | `%s` |' % tuple(str(x).replace('|', '\\|') for x in r))
 nd = [r for r in rows if r[4] == '—']
-out += ['', '%d seeded defects, %d detected by at least one check.' % (len(rows), len(rows) - len(nd))]
+ob = [r for r in rows if r[4].startswith('n/a')]
+out += ['', '%d seeded defects%s, %d detected by at least one check.' % (len(rows) - len(ob), ' (plus %d made harmless by a later fix)' % len(ob) if ob else '', len(rows) - len(nd) - len(ob))]
 if nd:
     out += ['', 'Not detected: ' + ', '.join(r[0] for r in nd)]
 open('/verif/DETECTION.md', 'w').write('\n'.join(out) + '\n')
